@@ -941,6 +941,10 @@ def check_type(S, j, op, o, text, allowed_extra=()):
         return
     if k in allowed_extra:
         return
+    if k.startswith("exc-in-stub:"):
+        # the pulse definitions' own matrix function raised (not demanded to be wrapped)
+        S.probe("exception_inside_stub_gate_matrix")
+        return
     S.viol.add("C16", "only_jaqal_errors_escape", k, o["where"], "%s: %s" % (k, o.get("exc")), op=j)
 
 
